@@ -13,8 +13,9 @@ parent, not a view, not the root of the receiving node's own tree) or — for `s
 node's current children; views (`SliceTree`s) are not edited structurally.  Everything else is free.
 `deepcopy` is covered for subtree copies (`copy_parent=False`, or a node without parent, e.g.
 `copy.deepcopy(root)`) and `replace_multiple` when no view is involved.  `split_end`, `prefix` (and the
-upward whole-tree copy `copy.deepcopy(inner_node)` they start with) are excluded here (`False`): their `Inv`
-preservation is checked per run by `invB`; the frame theorem for `deepcopy` covers all flags. -/
+upward whole-tree copy `copy.deepcopy(inner_node)` they start with) are excluded here (`False`); they are
+covered by the full discipline `Op.okFull` / `Op.okS` (Proofs/ArenaFull.lean, Proofs/ArenaNVP.lean), of which
+this one is a special case (`Op.ok.full`). -/
 def Op.ok (σ : Store α) : Op → Prop
   | .mk _ _ _ kids _ => ∀ c ∈ kids, DetachedRoot σ c
   | .addChild p c => ∃ rp, σ[p]? = some rp ∧ rp.view = false ∧ Detached σ p c
